@@ -576,10 +576,15 @@ class LowerRescale_contract:
             return dict(replaced=False)
         # the ORIGINAL numpy golden model on the same input (cross-checks the word-level transcription `golden_rescale`)
         import numpy as np
-        from util.gemmx.simd_golden_model import postprocessing_simd_golden_model
-        xs = x - (1 << 32) if x >> 31 else x
-        with np.errstate(all="ignore"):
-            np_ref = int(postprocessing_simd_golden_model(np.array([xs], dtype=np.int64), zi, zo, s, hi, lo, 1 if sh["dr"] else 0, m)[0])
+        try:
+            from util.gemmx.simd_golden_model import postprocessing_simd_golden_model
+        except ImportError:
+            postprocessing_simd_golden_model = None  # tree without util/: the cross-check is skipped, nothing else changes
+        np_ref = None
+        if postprocessing_simd_golden_model is not None:
+            xs = x - (1 << 32) if x >> 31 else x
+            with np.errstate(all="ignore"):
+                np_ref = int(postprocessing_simd_golden_model(np.array([xs], dtype=np.int64), zi, zo, s, hi, lo, 1 if sh["dr"] else 0, m)[0])
         return dict(replaced=True, i8=out.type == i8, got=den(out, {id(blk.args[0]): x}), np_ref=np_ref, prod=None)
 
     def ensures(sh, a, ret):
